@@ -46,10 +46,24 @@ impl UvMapping {
     ///
     /// returns: Option<(usize, [f64; 3])>
     pub fn triangle(&self, point: &Point2) -> Option<(usize, [f64; 3])> {
+        // The triangles of the UV map are solid: a point inside a triangle is its own projection.
+        // (With `solid = false` an interior point was moved to the nearest triangle edge.)
         let result = self
             .tri_map
-            .project_local_point_and_get_location(point, false);
+            .project_local_point_and_get_location(point, true);
         let (_, (t_id, loc)) = result;
-        Some((t_id as usize, loc.barycentric_coordinates().unwrap()))
+        let barycentric = match loc.barycentric_coordinates() {
+            Some(bc) => bc,
+            None => {
+                // `TrianglePointLocation::OnSolid` carries no coordinates
+                let tri = self.tri_map.triangle(t_id);
+                let (e1, e2, v) = (tri.b - tri.a, tri.c - tri.a, point - tri.a);
+                let den = e1.x * e2.y - e2.x * e1.y;
+                let b1 = (v.x * e2.y - e2.x * v.y) / den;
+                let b2 = (e1.x * v.y - v.x * e1.y) / den;
+                [1.0 - b1 - b2, b1, b2]
+            }
+        };
+        Some((t_id as usize, barycentric))
     }
 }
